@@ -100,6 +100,8 @@ def run(ctx):
                     continue   # one linear lookup has ~130 function entries; bound 2 over it is a thorough-tier item
                 if not thorough and n == 1 and layer != "L_hilbert":
                     continue   # quick: the 2-D configurations only
+                if not thorough and interp in ("clamp", "affine_nn") and layer.startswith("L_morton"):
+                    continue   # quick: wrapper kinds over row-major and Hilbert only (a Morton lookup has 3x the function entries)
                 js.append(Job("explorefn_%s_%s_N%d" % (layer, interp, n), SRC, FN + extra, ["VP_LAYER=" + layer], ["explore_fn", 2, cap, ctx.tier, "/%s/N%d/" % (interp, n)], timeout=1500,
                               key_prefix="explorefn_%s_%s_N%d" % (layer, interp, n)))
     # cold-start exploration: every schedule in a freshly forked child (statics / lazily built tables in their initial state),
